@@ -43,7 +43,7 @@ BOUND = ('bodies of length 0..9 (quick) / 0..12 (thorough) over a 3-letter alpha
          'declared Content-Type in {multipart/form-data with the right boundary, application/json, urlencoded, text/plain} x a two-part '
          'multipart body with a look-alike delimiter x epilogue in {none, CRLF, text with a further delimiter} x CL in {n, n-1, up to the '
          'closing delimiter, n+2} x max_memfile_size 1/7/18/64/4096 x 9 fragmentations (1/2/3/18-byte reads, cuts at and around the '
-         'closing delimiter) x {application handler, bare Request}; '
+         'closing delimiter) x {application handler, bare Request}, and the same grid over 5 byte strings that are NOT well-formed multipart under the multipart type; '
          'Request.copy(): payload of 1/4/9 bytes followed by 4 bytes of the next request x CL in {0,n,n+2,n+6} x max_memfile_size '
          '1/3/16 x 4 scripts x 2 tails x {application handler, bare Request} x order {original read first then copy, copy of the '
          'copy, original again; copy taken before any access and only the copies read} x max_body_size {none, 2 = refusal '
@@ -160,8 +160,10 @@ def gen_cases(tier, seed):
     # while it is read: closing delimiter, epilogue and the bytes after it are body bytes like all others)
     mp = (b'--B7\r\nContent-Disposition: form-data; name="a"\r\n\r\nv1\r\n--B7\r\nContent-Disposition: form-data; name="f"; '
           b'filename="x.bin"\r\n\r\n\x00\r\n--B\r\n--B7--')
-    for epilogue in (b'', b'\r\n', b'\r\nepilogue text after the closing delimiter\r\n--B7\r\nnot a part'):
-        data = mp + epilogue
+    bodies = [mp + epilogue for epilogue in (b'', b'\r\n', b'\r\nepilogue text after the closing delimiter\r\n--B7\r\nnot a part')]
+    # bytes that are NOT well-formed multipart under a multipart type: the raw body is still exactly those bytes
+    bodies += [b'no delimiter at the start of it', b'--B7\rX' + b'y' * 12, b'--B7\r\nContent-Disposition: form-data\r\n\r\nnoname\r\n--B7--\r\n', b'--B7--', b'\r\n--B']
+    for data in bodies:
         for ctype in ('multipart/form-data; boundary=B7', 'application/json', 'application/x-www-form-urlencoded', 'text/plain'):
             for cl in (len(data), len(data) - 1, len(mp), len(data) + 2):
                 for buff in ((1, 7, 18, 64, 4096) if tier == 'quick' else (1, 2, 3, 7, 17, 18, 19, 64, 4096)):
